@@ -11,8 +11,17 @@ A history is a list of op dicts:
   {"op":"crash","k":int}              (applies to the next op)
   {"op":"dump"}
 Times are integer ticks (TICKS per second).
+
+Two forms of the `recv` line (environment variable VERIF_RECV_FORM):
+  json (default)  `recvj`: the JSON object itself goes to the driver, pair by pair (`extra` keys merged
+                  in, as the implementation runner does); the classification into the model's `Cmd` is
+                  the Lean definition `Wormhole.decodeCmd` (lean/Wormhole/Decode.lean), about which
+                  `decode_ignores_extra_keys` etc. are proved (lean/Wormhole/Props/Decode.lean).
+  classic         `recv`: the harness classifies the object (`op_line_classic`; `extra` keys are dropped).
+The `cfg` op is sent as `cfgw` (the three welcome options; the driver computes the welcome text with
+`Wormhole.mkCfg`) unless VERIF_RECV_FORM=classic (`cfg` with the text computed by `welcome_json`).
 """
-import json
+import json, os
 
 TICKS = 8
 ABSENT = object()
@@ -75,8 +84,67 @@ def bad_client_version(cv):
         return type(e).__name__
 
 
+def jtok(v):
+    """JSON value -> token of the `recvj` form: `~` null, `t`/`f` booleans, `h<hex>` string, `i<int>`
+    integer, `o` anything else (float, array, object)"""
+    if v is None:
+        return "~"
+    if v is True:
+        return "t"
+    if v is False:
+        return "f"
+    if isinstance(v, str):
+        return hx(v)
+    if isinstance(v, int):
+        return "i%d" % v
+    return "o"
+
+
+def opt_tok(v):
+    """an option that is a string or None -> `h<hex>` / `-`"""
+    return "-" if v is None else hx(v if isinstance(v, str) else str(v))
+
+
+def op_line_json(op):
+    """`recv` op dict -> `recvj` line: the JSON object as sent to the implementation (msg + extra), one
+    `<hex of key>=<token>` per key in order.  The only thing computed here is the indexing of
+    `client_version` (`cv=<tok [0]>,<tok [1]>`, or `cv=!<ExceptionClass>` when Python cannot index it)."""
+    m = dict(op["msg"])
+    if op.get("extra"):
+        m.update(op["extra"])
+    d = op.get("draws") or []
+    parts = ["recvj", "%d" % op["c"], "%d" % op["t"], "%d" % op.get("pick", 0),
+             ",".join("%d" % x for x in d) if d else "-", opt_tok(op.get("fresh"))]
+    for key, v in m.items():
+        if key == "client_version":
+            bad = bad_client_version(v)
+            parts.append("cv=!" + bad if bad else "cv=%s,%s" % (jtok(v[0]), jtok(v[1])))
+        else:
+            parts.append("%s=%s" % (key.encode("utf-8").hex(), jtok(v)))
+    return " ".join(parts)
+
+
+def recv_form():
+    return os.environ.get("VERIF_RECV_FORM", "json") or "json"
+
+
 def op_line(op):
     """op dict -> line for the model driver"""
+    k = op["op"]
+    if recv_form() != "classic":
+        if k == "recv":
+            return op_line_json(op)
+        if k == "cfg":
+            return "cfgw %d %d %s %s %s %s %d" % (
+                1 if op.get("allow_list", True) else 0, 1 if op.get("usage") else 0,
+                "-" if op.get("blur") is None else "%d" % op["blur"],
+                opt_tok(op.get("motd")), opt_tok(op.get("advertise")), opt_tok(op.get("error")),
+                op.get("rebooted", 0))
+    return op_line_classic(op)
+
+
+def op_line_classic(op):
+    """op dict -> line for the model driver, `recv` classified by the harness (the old form)"""
     k = op["op"]
     if k == "cfg":
         return "cfg %d %d %s %s %d" % (1 if op.get("allow_list", True) else 0, 1 if op.get("usage") else 0,
